@@ -1,5 +1,5 @@
 // Builds a real OptionContext from option tokens (shared by op / oa / of components):
-//   o:<hexname>:<alias>:<props>[:<heximpl|~>:<hexdefault|~>:<hexarg|~>:<hexdesc|~>:<level>:<group>:<kind>]
+//   o:<hexname>:<alias>:<props>[:<heximpl|~>:<hexdefault|~>:<hexarg|~>:<hexdesc|~>:<level>:<group>:<kind>:<grouplevel>]
 //   props: i implicit, f flag, n negatable, c composing; kind: 0 int, 1 string, 2 flag (store_true), 3 vector<int>,
 //   4 custom notifier (refuses strings starting with 'x'), 5 ValueMap int, 6 mapped enum (no/yes/maybe/auto -> 0/1/2/7),
 //   7 flag (store_false), 8 notified int (kept only when >= 0)
@@ -63,7 +63,7 @@ struct OptCtx {
 		const char* desc = t.size() > 7 && t[7] != "~" ? keep(unhex(t[7])) : "";
 		if (t.size() > 8) v->level(static_cast<DescriptionLevel>(std::atoi(t[8].c_str())));
 		unsigned g = t.size() > 9 ? (unsigned)std::atoi(t[9].c_str()) : 0;
-		OptionGroup grp(g == 0 ? "" : "Group" + str(g));
+		OptionGroup grp(g == 0 ? "" : "Group" + str(g), static_cast<DescriptionLevel>(t.size() > 11 ? std::atoi(t[11].c_str()) : 0));
 		grp.addOption(SharedOptPtr(new Option(name, alias, desc, v)));
 		ctx.add(grp);
 		return true;
